@@ -1017,3 +1017,9 @@ Proof.
 Qed.
 Lemma model_no_marks_lemma c : wf_case c = true -> o_dirty (run_C18 c) = [].
 Proof. intros W. apply model_no_marks. apply wf_params. exact W. Qed.
+
+(* suite C18huge: the model of the zero-sized branches meets its checker for every count *)
+Lemma C18huge_model_ok_lemma : forall op k, ok_C18huge op k (run_C18huge op k) = true.
+Proof.
+  intros op k. unfold ok_C18huge, run_C18huge. destruct (op =? 10); rewrite ?N.eqb_refl; reflexivity.
+Qed.
